@@ -16,7 +16,7 @@ import vlib
 
 MODEL = "consumer"
 MODULE = "Model.Consumer"
-TIED = ["C02_single_fetch", "C02_no_overlap", "C02_delivered_in_order", "C02_extract_log_segment", "C02_extract_is_segment", "C02_extract_ordered",
+TIED = ["C02_single_fetch", "C02_no_overlap", "C02_delivered_in_order", "C02_fetch_offsets_contiguous", "C02_delivered_is_log_segment", "C02_never_idle", "C02_extract_log_segment", "C02_extract_is_segment", "C02_extract_ordered",
         "C02_progress_partial"]
 
 
@@ -61,6 +61,8 @@ def monitors(CL, LL, cfg, events, drv, log):
         res.append(("C02_progress (an alive consumer whose processor is not running has a request or a refetch timer outstanding)", m))
     pw = LL.ProcWindow()
     for i, (ev, outs) in enumerate(zip(events, steps)):
+        if ev[0] == CL.EV_START and not (outs and outs[0][0] == CL.OUT_IGNORED) and any(o[0] == CL.OUT_RET for o in outs):
+            pw.started()
         pw.event(ev, True)
         for o in outs:
             b = pw.out(o)
